@@ -245,7 +245,7 @@ func batch(res *evid.Result, bi int, root string) {
 		for i := range tq.File.Funcs {
 			if tq.File.Funcs[i].Name == tp.Q.Name {
 				tq.File.Funcs[i] = tp.Q
-				tq.Edits[i] = []edit.Applied{{Kind: tp.Kind, Class: map[bool]string{true: "abstracted-literal", false: "non-literal"}[tp.Kind == "big-uint64-const"]}}
+				tq.Edits[i] = []edit.Applied{{Kind: tp.Kind, Class: map[bool]string{true: "abstracted-literal", false: "non-literal"}[tp.Kind == "big-uint64-const" || strings.HasPrefix(tp.Kind, "float-const-close")]}}
 			}
 		}
 	}
